@@ -540,7 +540,15 @@ func c01ReadsNothingElse(w *World, r *Recorder, ic *types.Interface) {
 			}
 			isErr := isErrorType(g.Type().(*types.Pointer).Elem())
 			isRE := strings.Contains(g.Type().String(), "regexp.Regexp")
+			constTable := w.readOnlyOutsideInit(g) && len(gi.Writers) <= 1
+			for _, wf := range gi.Writers {
+				if wf.Synthetic != "package initializer" {
+					constTable = false
+				}
+			}
 			switch {
+			case constTable && !isErr && !isRE:
+				r.Prove("C01-R4", "global:"+g.Name(), w.Pos(g.Pos()), "constant table: written only by its initialiser, only read elsewhere", true)
 			case !gi.InitOnly:
 				r.Refute("C01-R4", "global:"+g.Name(), w.Pos(g.Pos()), "validation reads package variable "+g.Name()+", which is written outside its initialiser")
 			case isErr || isRE:
